@@ -16,7 +16,7 @@ MANIFEST = dict(
          "claimed. Lean theorems over a bookkeeping model of the pool code — candidate batches, in-bounds flags, "
          "log-densities, log-uniforms, gate decisions and permutation keys are arbitrary inputs, floats carry NaN/±inf "
          "semantics — for all batch counts/sizes and op sequences: check_prior_bounds keeps exactly the in-bounds rows and "
-         "every flow-pool point passed it; the plain loop of FlowProposal.populate writes exactly N points, every slot once, "
+         "every flow-pool point passed it (backward_pass(rescale=True); the x-prime-prior branch is not modelled); the plain loop of FlowProposal.populate writes exactly N points, every slot once, "
          "in order; the accumulating loop gives exactly N unless left through the max_samples break (counter-example "
          "proved: short and even empty pool), never more; prior-rejection pools hold at most N; the fill loops of "
          "Model._multiple_new_points / INS populate_live_points fill all N slots with finite-prior points; "
@@ -40,7 +40,10 @@ MANIFEST = dict(
          "accumulating branch (logsumexp >= log N) are observed from the implementation and are inputs of the model (the "
          "theorems hold for every gate sequence). Default-mode augmented sessions use uniforms at least 1e-6 away (in log) "
          "from the dyadic decision lattice because the Gaussian augment prior is not dyadic (it cancels in log w - log "
-         "w_max). Not driven: x-prime priors (GW reparameterisations), flow densities themselves (C08). Model.in_bounds "
+         "w_max). NOT MODELLED and not driven: the x-prime-prior branch (use_x_prime_prior, GW reparameterisations), where populate calls "
+         "backward_pass(rescale=False) and the bounds are not checked there — pool_in_bounds / "
+         "likelihood_args_in_support are stated for the rescale=True branch only "
+         "(backward_pass_without_rescale_keeps_out_of_bounds shows the difference); flow densities themselves are C08. Model.in_bounds "
          "treats NaN coordinates as inside; NaN coordinates are outside the generated domain.",
     technique="Lean 4 proof (loop invariants by induction over batch / op sequences) + scripted-flow differential "
               "correspondence with the real proposal classes + oracle on real runs",
